@@ -5,8 +5,11 @@
   `path_optimizer` (C04) and by the classic compiler's path assignment (C03).
 
   The model mirrors the code AS IT IS:
-  * `get_u32` assembles its four bytes little-endian although `bigint_from_bytes` treats the
-    groups as big-endian digits;
+  * `get_u32` assembles its four bytes big-endian (since /repo c2e6c4f; before that commit it
+    was little-endian although `bigint_from_bytes` treats the groups as big-endian digits —
+    former findings C04-get-u32-path, C03-deep-path-get-u32, C08-get-u32-little-endian);
+    `bigint_from_bytes` is therefore the plain unsigned big-endian reading
+    (`NodePath.bigintFromBytes_eq` in Proofs/NodePathLemmas.lean, all lengths);
   * `NodePath::new` re-reads a *negative* index through
     `bigint_to_bytes_clvm` → `bigint_from_bytes` (unsigned), non-negative ones are kept.
   Import-free (links into the native driver).
@@ -18,10 +21,10 @@ namespace NodePath
 /-- `dv[n]` (the Rust code indexes in bounds only; out of range reads as 0 here). -/
 def byteAt (dv : Bytes) (n : Nat) : Nat := (dv.getD n 0).toNat
 
-/-- `get_u32(v, n)`: `p1 | p2 << 8 | p3 << 16 | p4 << 24` — LITTLE-endian.
+/-- `get_u32(v, n)`: `(p1 << 24) | (p2 << 16) | (p3 << 8) | p4` — BIG-endian
     (the four fields are disjoint, so `|` is `+`). -/
 def getU32 (dv : Bytes) (n : Nat) : Nat :=
-  byteAt dv n + byteAt dv (n + 1) * 2 ^ 8 + byteAt dv (n + 2) * 2 ^ 16 + byteAt dv (n + 3) * 2 ^ 24
+  byteAt dv n * 2 ^ 24 + byteAt dv (n + 1) * 2 ^ 16 + byteAt dv (n + 2) * 2 ^ 8 + byteAt dv (n + 3)
 
 /-- first loop of `bigint_from_bytes`: `k` counts `i_reverse`; `i = bytes4_length - i_reverse - 1`,
     `order` starts at 1 and is shifted by 32 per round. -/
